@@ -752,6 +752,72 @@ def _member_test(t, key, d):
     return None
 
 
+def rule_r8(repo, run):
+    R = run.rule("C17.R8", "a raw YAML value is iterated (or handed to a function that iterates it) only after "
+                           "its shape was checked with isinstance")
+    n = 0
+    am = repo.module("ast")
+    # module functions that iterate a parameter without checking it
+    iterating = {}
+    for q, fn in am.functions().items():
+        if "." in q:
+            continue
+        for i, a in enumerate(fn.args.args):
+            for node in ast.walk(fn):
+                it = None
+                if isinstance(node, (ast.For, ast.comprehension)):
+                    it = node.iter
+                    if isinstance(it, ast.Call) and pyflow.is_name(it.func, "enumerate") and it.args:
+                        it = it.args[0]
+                if it is not None and pyflow.is_name(it, a.arg):
+                    tests = [t for t, p in pyflow.dominating_tests(node, stop=fn)] + \
+                            [t for t, p in pyflow.early_exit_guards(fn, node)]
+                    if not any("isinstance" in am.seg(t) and a.arg in am.seg(t) for t in tests):
+                        iterating[q] = i
+    for mname, q in YAML_FUNCS:
+        m = repo.module(mname)
+        f = m.func(q)
+        for node in ast.walk(f):
+            sites = []
+            if isinstance(node, (ast.For, ast.comprehension)):
+                it = node.iter
+                if isinstance(it, ast.Call) and pyflow.is_name(it.func, "enumerate") and it.args:
+                    it = it.args[0]
+                sites.append(("iteration", it))
+            elif isinstance(node, ast.Call):
+                d = pyflow.call_name(node) or ""
+                if d in iterating and len(node.args) > iterating[d]:
+                    sites.append(("%s()" % d, node.args[iterating[d]]))
+            for what, e in sites:
+                if not (isinstance(e, ast.Subscript) and pyflow.const_str(e.slice) is not None):
+                    continue
+                d = pyflow.dotted(e.value)
+                if d is None or d.startswith("self.") or d in ("splicers", "config"):
+                    continue
+                n += 1
+                text = m.seg(e)
+                tests = [t for t, p in pyflow.dominating_tests(node, stop=f)] + \
+                        [t for t, p in pyflow.early_exit_guards(f, node)]
+                ok = False
+                for t in tests:
+                    for c in ast.walk(t):
+                        if isinstance(c, ast.Call) and pyflow.is_name(c.func, "isinstance") and c.args:
+                            a0 = c.args[0]
+                            if m.seg(a0) == text:
+                                ok = True
+                            elif isinstance(a0, ast.Name):
+                                # alias:  v = d["k"]; if not isinstance(v, list): raise
+                                for asg in ast.walk(f):
+                                    if isinstance(asg, ast.Assign) and pyflow.is_name(asg.targets[0], a0.id) \
+                                            and m.seg(asg.value) == text:
+                                        ok = True
+                run.check(R, "%s.%s:%s of %s" % (mname, q, what, re.sub(r"\s+", "", text)), ok,
+                          "%s of the raw YAML value %s without an isinstance check: a scalar there (`%s: 3`) ends in "
+                          "TypeError instead of a diagnostic" % (what, text, pyflow.const_str(e.slice)), m.loc(node),
+                          sample=dict(function=q, value=text, use=what))
+    run.floor(R, "iterations over raw YAML values", n, 4)
+
+
 def run(repo, run, tier):
     P = Program(repo)
     rule_r1(repo, run, P)
@@ -761,3 +827,4 @@ def run(repo, run, tier):
     rule_r5(repo, run)
     rule_r6(repo, run)
     rule_r7(repo, run)
+    rule_r8(repo, run)
